@@ -174,7 +174,24 @@ def _monotone(g, stmt, val) -> tuple[bool, str]:
                     elts = t.elts if isinstance(t, ast.Tuple) else [t]
                     if any(isinstance(e, ast.Name) and e.id == val.id for e in elts):
                         defs.append(n.value)
-        if defs and all(_is_match_end(d) for d in defs):
+        def boundary(e, depth=0) -> bool:
+            """A match boundary, a boundary plus a non-negative constant, or a local all of whose definitions are such."""
+            if _is_match_end(e):
+                return True
+            if isinstance(e, ast.BinOp) and isinstance(e.op, ast.Add) and isinstance(e.right, ast.Constant) and \
+                    isinstance(e.right.value, int) and e.right.value >= 0:
+                return boundary(e.left, depth + 1)
+            if isinstance(e, ast.Name) and depth < 4:
+                ds = []
+                for n2 in own_nodes(g.node):
+                    if isinstance(n2, ast.Assign):
+                        for t2 in n2.targets:
+                            elts2 = t2.elts if isinstance(t2, ast.Tuple) else [t2]
+                            if any(isinstance(x, ast.Name) and x.id == e.id for x in elts2):
+                                ds.append(n2.value)
+                return bool(ds) and all(boundary(d, depth + 1) for d in ds)
+            return False
+        if defs and all(boundary(d) for d in defs):
             return True, ""
         params = [a.arg for a in g.node.args.args]
         if not defs and val.id in params:
